@@ -1,6 +1,7 @@
 package checks
 
 import (
+	"encoding/json"
 	"fmt"
 	"os"
 	"testing"
@@ -27,5 +28,23 @@ func TestDenseHistoryTrace(t *testing.T) {
 	fmt.Println("valerr:", r.Chain.ValErr, "dead:", r.Chain.DeadReason)
 	if len(r.States) > 0 {
 		fmt.Println(r.States[len(r.States)-1].JSON())
+	}
+}
+
+func TestSmallStakeTrace(t *testing.T) {
+	r := sim.Run(tmpRoot(), smallStakeHistory(genesis3s()), nil)
+	defer r.Cleanup()
+	defer CleanupTmp()
+	for _, l := range r.Chain.Log {
+		lg := l.Log
+		if len(lg) > 150 {
+			lg = lg[:150]
+		}
+		fmt.Printf("%-10s h=%d #%d %-45s => %s | %s\n", l.Kind, l.H, l.Idx, l.Req, l.Resp, lg)
+	}
+	fmt.Println("valerr:", r.Chain.ValErr, "dead:", r.Chain.DeadReason)
+	for _, st := range r.States {
+		b, _ := json.Marshal(st.Delegatees)
+		fmt.Println(st.Height, string(b))
 	}
 }
